@@ -37,14 +37,14 @@ def project(img):
 def make_image(darsia, rng, cfg):
     n = cfg["dim"]
     shape = tuple(rng.randint(1, 3) for _ in range(n))
-    T = rng.randint(2, 3)
+    T = rng.choice([1, 2, 3, 3, 11, 12, 23])    # series of one slice, a few, and more than ten (two-digit member / index names)
     full = shape + ((T,) if cfg["series"] else ()) + (() if cfg["scalar"] else (2,))
     size = int(np.prod(full))
     dt = cfg["dtype"]
     if dt == "bool":
         arr = (np.arange(size) % 2 == 0).reshape(full)
     elif dt in ("uint8", "uint16"):
-        arr = (np.arange(size) * 3 % 250).astype(dt).reshape(full)
+        arr = (np.arange(size) * 7 % 251).astype(dt).reshape(full)
     else:
         arr = np.arange(size, dtype=dt).reshape(full)
     kw = dict(space_dim=n, dimensions=[0.5 * (a + 1) * shape[a] for a in range(n)], scalar=bool(cfg["scalar"]), series=bool(cfg["series"]))
